@@ -10,6 +10,7 @@ pub mod cqueue;
 pub mod local;
 pub mod mutex;
 pub mod panicf;
+pub mod queues;
 pub mod park;
 pub mod rwlock;
 pub mod scope;
@@ -38,6 +39,9 @@ pub const FAMILIES: &[Family] = &[
     Family { name: "cqueue", runtime: true, max_steps: 300_000, run: cqueue::run },
     Family { name: "panic", runtime: true, max_steps: 400_000, run: panicf::run },
     Family { name: "local", runtime: true, max_steps: 400_000, run: local::run },
+    Family { name: "q_mpsc", runtime: false, max_steps: 400_000, run: queues::run_fifo },
+    Family { name: "q_spmc", runtime: false, max_steps: 400_000, run: queues::run_spmc },
+    Family { name: "q_list", runtime: false, max_steps: 400_000, run: queues::run_list },
     Family { name: "spawn", runtime: true, max_steps: 400_000, run: spawn::run },
 ];
 
@@ -69,6 +73,27 @@ fn chan_c07(g: &GenCfg) -> BoxedStrategy<Case> {
 }
 
 pub const PROPS: &[Prop] = &[
+    Prop {
+        id: "C03",
+        quick: 8000,
+        thorough: 400_000,
+        rule: "q_mpsc family on may_queue directly (no runtime): the mpsc block queue with 1-3 producer threads or the spsc block queue with one, 0-40 pushes each, a consumer issuing up to 50 operations out of pop / bulk_pop / peek / len / is_empty, a start offset of 0-130 values pushed and popped beforehand (mostly just below a block boundary), and a final phase that drains the queue or drops it with values left inside; the schedule points are the queue's own atomic operations. Non-trivial = a pop-type operation overlapped a push AND the run crossed a block boundary AND at least one pre-emption. Distinct = distinct hash of (program, schedule).",
+        units: &[Unit { fam: "q_mpsc", label: "fifo", share: 1, strategy: queues::strategy_fifo }],
+    },
+    Prop {
+        id: "C04",
+        quick: 8000,
+        thorough: 400_000,
+        rule: "q_spmc family on may_queue::spmc directly: the owner runs a generated push / local pop sequence (0-100 operations) and then keeps servicing (filler pushes and pops) until 1-3 stealer threads have finished their steal_into / is_empty sequences (Local/Steal API) or their pop / bulk_pop sequences (raw Queue API); start offset 0-70 mostly just below a block boundary; the child uses a LIFO size-class allocator so that a freed block is re-allocated at the same address (ABA by construction). Non-trivial = at least one successful steal AND a block boundary crossed AND at least one pre-emption. Distinct = distinct hash of (program, schedule).",
+        units: &[Unit { fam: "q_spmc", label: "spmc", share: 1, strategy: queues::strategy_spmc }],
+    },
+    Prop {
+        id: "C19",
+        quick: 8000,
+        thorough: 400_000,
+        rule: "q_list family on may_queue::mpsc_list_v1 directly: 1-3 producer threads push 0-12 entries each and hand the entry handles to the consumer, which runs up to 40 operations out of pop / pop_if(pred) / peek / remove(handle of a live or of an already consumed entry) / is_empty, as the timer thread does. Non-trivial = at least one pre-emption AND a remove overlapped a push. Distinct = distinct hash of (program, schedule).",
+        units: &[Unit { fam: "q_list", label: "list", share: 1, strategy: queues::strategy_list }],
+    },
     Prop {
         id: "C15",
         quick: 6000,
